@@ -240,16 +240,15 @@ class _Func:
                 out += cur
             return out
         if isinstance(e, ast.BoolOp):
-            cur = self.evalx(e.values[0], env, dead)
-            out = list(cur)
-            for v in e.values[1:]:
-                cur = [(env2, t) for env1, _ in cur for env2, t in self.evalx(v, env1, dead)]
-                out += cur
-            return out
+            return [(env1, "bool") for env1, _ in self.evalc(e, env, dead)]
         if isinstance(e, ast.IfExp):
             out = []
             for env1, t in self.evalc(e.test, env, dead):
                 out += self.evalx(e.body if t else e.orelse, env1, dead)
+            st0 = self.static_truth(e.test) if self.mode == "const" else None
+            if st0 is not None:
+                self.evalx(e.orelse if st0 else e.body, env, True)
+                self.rec.dead_stmt = True
             return out
         if isinstance(e, (ast.ListComp, ast.GeneratorExp)):
             cur = [env]
@@ -302,6 +301,13 @@ class _Func:
                             out.append((env2, t))       # short-circuit: decided
                         else:
                             nxt.append((env2, t))
+                if self.mode == "const" and self.static_truth(v) == (not is_and) and k < len(e.values) - 1:
+                    # decided by a literal constant: the remaining operands are DEAD code (still
+                    # checked for undefined reads, as the compiler does; nothing they bind flows on)
+                    for env1, _ in cur:
+                        for rest in e.values[k + 1:]:
+                            self.evalx(rest, env1, True)
+                    self.rec.dead_stmt = True
                 cur = nxt
             return out
         if isinstance(e, ast.UnaryOp) and isinstance(e.op, ast.Not):
@@ -310,14 +316,39 @@ class _Func:
             out = []
             for env1, t in self.evalc(e.test, env, dead):
                 out += self.evalc(e.body if t else e.orelse, env1, dead)
+            st = self.static_truth(e.test) if self.mode == "const" else None
+            if st is not None:
+                self.evalx(e.orelse if st else e.body, env, True)
+                self.rec.dead_stmt = True
             return out
-        if isinstance(e, ast.Constant) and isinstance(e.value, bool):
+        if isinstance(e, ast.Constant) and isinstance(e.value, bool) and self.mode == "const":
             return [(env, e.value)]
         out = []
         for env1, _ in self.evalx(e, env, dead):
             out.append((env1, True))
             out.append((env1, False))
         return out
+
+    def static_truth(self, e):
+        """Truth value of a condition that is decided by literal constants alone, else None."""
+        if isinstance(e, ast.Constant) and isinstance(e.value, bool):
+            return e.value
+        if isinstance(e, ast.UnaryOp) and isinstance(e.op, ast.Not):
+            v = self.static_truth(e.operand)
+            return None if v is None else (not v)
+        if isinstance(e, ast.BoolOp):
+            is_and = isinstance(e.op, ast.And)
+            for v in e.values:
+                t = self.static_truth(v)
+                if t is None:
+                    return None
+                if t == (not is_and):
+                    return t
+            return is_and
+        if isinstance(e, ast.IfExp):
+            t = self.static_truth(e.test)
+            return None if t is None else self.static_truth(e.body if t else e.orelse)
+        return None
 
     def cond_states(self, e, st):
         """(state when e is true, state when e is false)."""
